@@ -81,7 +81,8 @@ func (c *tinyLFU[K, V]) Access(item *cacheItem[K, V]) {
 // frequency of the item.
 func (c *tinyLFU[K, V]) Admit(item *cacheItem[K, V]) {
 	if c.bypassed() {
-		c.slru.Admit(item)
+		// record the owning list as well, Access and Remove look it up
+		c.admitTo(item, &c.slru)
 		return
 	}
 
